@@ -285,7 +285,7 @@ def classify(rep, prop, cases_by_id, events, verdicts, hazards, my_invariants, l
 # daemon mode: the real Store with all its monitors running next to a live application writer (harness/core/daemon.go)
 
 DAEMON_INV = ["D_AckRestoreEqualsSource", "D_FinalRestoreEqualsSource", "D_EveryTxidIsACommittedState", "D_ReplicaMonotone",
-              "D_Level0OneRun", "D_LevelsContiguous", "D_SnapshotKept", "D_CatchesUp", "D_StopReturns", "D_NoLeakAfterStop",
+              "D_Level0OneRun", "D_LevelsContiguous", "D_SnapshotKept", "D_CatchesUp", "D_SameAsControlRun", "D_BookkeepingOnly", "D_StopReturns", "D_NoLeakAfterStop",
               "D_SourceNotPinned", "D_NoPanic"]
 
 
@@ -314,7 +314,9 @@ def daemon_cases(seed, n, first_id=0, steps=(40, 90), faults="some"):
                 sched += [["AppDelete", 1], ["AppReclaim"]]
             elif x < 0.76:
                 sched.append(["AppCheckpoint", rnd.choice(["PASSIVE", "FULL", "RESTART", "TRUNCATE"])])
-            elif x < 0.86:
+            elif x < 0.79:
+                sched.append(["AppDDL", rnd.randint(0, 7)])
+            elif x < 0.87:
                 sched.append(["SyncWait"])
             else:
                 sched.append(["Sleep", rnd.randint(5, 80)])
@@ -330,6 +332,7 @@ def daemon_cases(seed, n, first_id=0, steps=(40, 90), faults="some"):
                      min_pg=[1000, 4, 2][k % 3], trunc_pg=[0, 0, 9][(k // 3) % 3], max_bytes=0)
         fast = k % 2 == 0
         cfg["faults"] = with_faults
+        cfg["control"] = True       # the same application history without litestream (C14 clause of the daemon judge)
         cfg["daemon"] = {"monMs": rnd.choice([5, 10, 25]), "syncMs": rnd.choice([5, 10, 30]),
                          "l1Ms": 60 if fast else 150, "l2Ms": 200 if fast else 450, "snapMs": rnd.choice([250, 500, 900]),
                          "snapRetMs": rnd.choice([300, 700, 1500]), "l0RetMs": rnd.choice([50, 150, 400]), "l0CheckMs": rnd.choice([40, 90]),
@@ -344,9 +347,10 @@ def daemon_run(rep, binary, wd, cases, prop, name="daemon"):
     out, info = run_cases(binary, wd, name, [{k: c[k] for k in ("id", "cfg", "sched")} for c in cases], j=4)
     events, verdicts, hazards = judge(rep, wd, out, DAEMON_INV, prop + "-daemon", module="DaemonObs")
     st = {"runs": len(events), "runs_with_faults": sum(1 for c in cases if c["cfg"].get("faults")), "acks": 0, "acks_restored": 0, "txids_audited": 0, "txids_below_floor": 0, "compactions": 0,
-          "snapshots": 0, "l0_deleted_runs": 0, "validator_disagrees": 0, "clean_stops": 0}
+          "snapshots": 0, "l0_deleted_runs": 0, "validator_disagrees": 0, "clean_stops": 0, "steps_compared_with_control": 0}
     for t, evs in events.items():
         st["acks"] += sum(1 for e in evs if e["ack"])
+        st["steps_compared_with_control"] += sum(1 for e in evs if e["ctl"] != -1)
         st["acks_restored"] += sum(1 for e in evs if e["ack"] and e["rest"]["ok"])
         for e in evs:
             if e["op"] == "AuditNow":
